@@ -8,3 +8,10 @@ open CalmVerif.Props.C12
 #check @token_terminates
 #check @lr_run_total
 #check @outcomes_are_explicit
+open CalmVerif.Props.C12lex
+#print axioms lexer_no_internal
+#print axioms token_no_internal
+#print axioms backtracked_token_no_internal
+#check @lexer_no_internal
+#check @token_no_internal
+#check @backtracked_token_no_internal
